@@ -29,6 +29,9 @@ C(f"{F}:next_statement", params=ST, generator=True, returns=None, requires=NS_RE
       "implies(is_none(result) and indent_col(state.line, state.pos) <= last(old(state.indents)),"
       "        len(yielded) == len(old(state.indents)) - len(state.indents) and last(state.indents) == indent_col(state.line, state.pos)"
       "        and all(yielded[j].type == Token.DEDENT and yielded[j].start == (state.lnum, state.pos) and yielded[j].end == (state.lnum, state.pos) for j in range(len(yielded))))",
+      # (C02) ... and what remains is an initial part of the old stack: the column of an accepted dedent WAS an enclosing level
+      "implies(is_none(result) and indent_col(state.line, state.pos) <= last(old(state.indents)),"
+      "        len(state.indents) <= len(old(state.indents)) and all(state.indents[j] == old(state.indents)[j] for j in range(len(state.indents))))",
       # comment / blank lines produce only COMMENT? NL and ask the caller to continue
       "implies(not is_none(result) and result == True, 1 <= len(yielded) <= 2 and yielded[len(yielded) - 1].type == Token.NL)",
   ],
@@ -40,12 +43,17 @@ C(f"{F}:next_statement", params=ST, generator=True, returns=None, requires=NS_RE
                      "implies(column > last(old(state.indents)), len(state.indents) == len(old(state.indents)) + 1 and last(state.indents) == column"
                      " and len(yielded) == 1 and yielded[0].type == Token.INDENT and yielded[0].start == (state.lnum, 0) and yielded[0].end == (state.lnum, state.pos))",
                      "implies(column <= last(old(state.indents)), column <= last(state.indents))",
+                     "implies(column <= last(old(state.indents)), len(state.indents) <= len(old(state.indents)) and all(state.indents[j] == old(state.indents)[j] for j in range(len(state.indents))))",
                      # dedent case: a prefix of the old stack remains, one zero-width DEDENT per popped level
                      "implies(column <= last(old(state.indents)), len(state.indents) <= len(old(state.indents))"
                      " and len(yielded) == len(old(state.indents)) - len(state.indents)"
                      " and all(yielded[j].type == Token.DEDENT and yielded[j].start == (state.lnum, state.pos) and yielded[j].end == (state.lnum, state.pos) for j in range(len(yielded))))"],
              "dec": "len(state.indents)"}},
-  modifies=["state.pos", "state.indents"], raises=["IndentationError"], properties=["C03", "C08", "C09", "C01"])
+  modifies=["state.pos", "state.indents"], raises=["IndentationError"],
+  # (C11) the error names this line, its text, and a 1-based column inside it (character index, not the tab-expanded width)
+  raises_ensures=["exc.lineno == state.lnum", "exc.text == state.line", "1 <= exc.offset <= len(state.line) + 1", "exc.end_lineno == state.lnum",
+                  "exc.end_offset >= exc.offset", "exc.end_offset <= len(state.line) + 1"],
+  properties=["C03", "C08", "C09", "C01", "C02", "C11"])
 
 NL_COND = "(len(state.last_line) > 0 and state.last_line[len(state.last_line) - 1] not in '\\r\\n' and not state.last_line.strip().startswith('#'))"
 
